@@ -207,6 +207,41 @@ class _Helper:
         self.locals = self.stored - set(self.params)
         body = func.body
         self.single_expr = len(body) == 1 and isinstance(body[0], ast.Return) and body[0].value is not None
+        if not self.single_expr and self.ok:
+            # a body made of nothing but returns under conditions (guard clauses / if-else chains) is one conditional expression
+            e = _as_expression(body)
+            if e is not None:
+                self.func = _clone_shallow_func(func, [ast.copy_location(ast.Return(value=e), body[0])])
+                self.single_expr = True
+
+
+def _as_expression(stmts):
+    """`if c: return A` ... `return B`  ->  A if c else B   (None when the statements are anything else)"""
+    if not stmts:
+        return None
+    st = stmts[0]
+    if isinstance(st, ast.Return) and st.value is not None:
+        return st.value
+    if isinstance(st, ast.If):
+        a = _as_expression(st.body)
+        if a is None:
+            return None
+        b = _as_expression(st.orelse) if st.orelse else _as_expression(list(stmts[1:]))
+        if b is not None:
+            return ast.copy_location(ast.IfExp(test=st.test, body=a, orelse=b), st)
+    return None
+
+
+def _clone_shallow_func(func, body):
+    new = type(func)()
+    for f in func._fields:
+        setattr(new, f, getattr(func, f))
+    for a in ('lineno', 'col_offset', 'end_lineno', 'end_col_offset', '_qualname', '_parent', '_module', '_func', '_cls', '_qual'):
+        if hasattr(func, a):
+            setattr(new, a, getattr(func, a))
+    new.body = body
+    new._original = func
+    return new
 
 
 _counter = itertools.count(1)
@@ -372,6 +407,7 @@ class _Inliner:
         self.helpers = helpers          # list of _Helper of this module
         self.count = 0
         self.failed = {}
+        self.expanded = set()
 
     def resolve(self, call, ctx_cls, ctx_funcs):
         f = call.func
@@ -476,6 +512,7 @@ class _Inliner:
                     if pre:
                         return n
                     me.count += 1
+                    me.expanded.add(h.name)
                     return ast.copy_location(val, n)
                 return n
         return S().visit(node)
@@ -515,6 +552,7 @@ class _Inliner:
                     self.failed[h.name] = str(e)
                     break
                 self.count += 1
+                self.expanded.add(h.name)
                 pre_all.extend(self.block(pre, ctx_cls, ctx_funcs))
                 if not want:
                     return pre_all
@@ -596,23 +634,27 @@ def phase_b(repo, ref_funcs, ref_names):
             continue
         # recursive helpers are left alone; helpers are expanded bottom-up (a helper's own body first)
         for h in helpers:
-            if any(True for _ in _calls(h.func, h.name)):
+            if any(True for _ in _calls(getattr(h.func, '_original', h.func), h.name)):
                 h.ok = False
+        expanded = set()
         for _round in range(4):
             inl = _Inliner(m, helpers)
             m.tree.body = inl.block(m.tree.body, None, [])
+            expanded |= inl.expanded
             if inl.count:
                 applied['%s:<helpers inlined>' % m.name] = applied.get('%s:<helpers inlined>' % m.name, 0) + inl.count
                 for h in helpers:
-                    hh = _Helper(m, h.func, h.kind, h.cls, h.encl)
+                    hh = _Helper(m, getattr(h.func, '_original', h.func), h.kind, h.cls, h.encl)
                     hh.ok = hh.ok and h.ok
                     h.__dict__.update(hh.__dict__)
             else:
                 break
         for name, why in inl.failed.items():
             applied['%s:<not inlined: %s>' % (m.name, name)] = why
-        # drop helper definitions that are no longer referenced anywhere in the module
+        # drop helper definitions that were expanded and are no longer referenced anywhere in the module
         for h in helpers:
+            if h.name not in expanded or (h.name.startswith('__') and h.name.endswith('__')):
+                continue
             used = False
             for x in ast.walk(m.tree):
                 if isinstance(x, ast.Name) and x.id == h.name and isinstance(x.ctx, ast.Load):
@@ -622,10 +664,11 @@ def phase_b(repo, ref_funcs, ref_names):
             if not used:
                 for node in ast.walk(m.tree):
                     b = getattr(node, 'body', None)
-                    if isinstance(b, list) and h.func in b:
-                        b.remove(h.func)
+                    orig = getattr(h.func, '_original', h.func)
+                    if isinstance(b, list) and orig in b:
+                        b.remove(orig)
                         if not b:
-                            b.append(ast.copy_location(ast.Pass(), h.func))
+                            b.append(ast.copy_location(ast.Pass(), orig))
         ast.fix_missing_locations(m.tree)
         _annotate(m.tree, m)
     return applied
